@@ -5,9 +5,9 @@ from . import gen_common as G
 from .canon import dec as C_dec
 import copy
 
-OP_GROUPS = ["net", "xform", "ssm", "cir", "td", "tran", "imp", "sig", "ld", "file"]
+OP_GROUPS = ["net", "xform", "ssm", "cir", "td", "tran", "imp", "sig", "ld", "file", "churn"]
 # groups with many leaf kinds and short menu items are drawn more often, so that step kinds are balanced
-GROUP_WEIGHT = {"net": 4, "xform": 2, "cir": 2, "ld": 2}
+GROUP_WEIGHT = {"net": 4, "xform": 2, "cir": 2, "ld": 2, "churn": 2}
 
 
 def plan(seed, overrides=None):
@@ -101,6 +101,7 @@ def plan(seed, overrides=None):
                       "args": enc({"period": rr.choice([1.0, 0.02, 6.283185307179586]), "amplitude": rr.choice(G.V_VALUES),
                                    "phase": rr.choice(G.PHI_VALUES), "offset": rr.choice([0, 1.5])})}
     recipes["desc0"] = G.gen_net_description(rr, degenerate=rr.random() < cfg["degenerate_rate"])
+    recipes["desc0s"] = _sibling_description(rr, recipes["desc0"])
     recipes["cdesc0"] = G.gen_cir_description(rr, degenerate=rr.random() < cfg["degenerate_rate"])
     recipes["doc0"] = G.gen_document_recipe(rr, python_form=True)
     recipes["ndoc0"] = G.gen_document_recipe(rr, python_form=False)
@@ -127,7 +128,28 @@ def _sibling_network(r, rec):
     if not sib["branches"]:
         return None
     b = r.choice(sib["branches"])
-    how = r.choice(["value", "value", "swap_nodes", "order"])
+    how = r.choice(["value", "value", "swap_nodes", "order", "relabel", "relabel", "kind_swap"])
+    if how == "relabel":
+        # the same ids and topology on another set of node labels
+        labels = G.network_nodes(sib)
+        zero = sib.get("zero", "0")
+        cand = [x for x in labels if x != zero]
+        if cand:
+            old, new = r.choice(cand), r.choice(["zz", "A1", "Ωx", "77"])
+            for br in sib["branches"]:
+                br["n1"] = new if br["n1"] == old else br["n1"]
+                br["n2"] = new if br["n2"] == old else br["n2"]
+        return sib
+    if how == "kind_swap":
+        # an ideal voltage source becomes a current source of the same id (other split of the source mappings)
+        for br in sib["branches"]:
+            if br["el"]["k"] == "voltage_source" and "Z" not in br["el"].get("args", {}):
+                br["el"] = {"k": "current_source", "name": br["el"]["name"], "args": {"I": 1}}
+                return sib
+            if br["el"]["k"] == "current_source" and "Y" not in br["el"].get("args", {}):
+                br["el"] = {"k": "voltage_source", "name": br["el"]["name"], "args": {"V": 1}}
+                return sib
+        how = "swap_nodes"
     if how == "value":
         args = b["el"].get("args", {})
         keys = [k for k, v in args.items() if isinstance(v, (int, float)) and not isinstance(v, bool)]
@@ -140,6 +162,30 @@ def _sibling_network(r, rec):
         b["n1"], b["n2"] = b["n2"], b["n1"]
     elif how == "order":
         sib["branches"].reverse()
+    return sib
+
+
+def _sibling_description(r, rec):
+    """the same entry ids on other node labels / with another source kind"""
+    sib = copy.deepcopy(rec)
+    sib.pop("alias", None)
+    ents = sib["v"]
+    if not isinstance(ents, list) or not ents:
+        return sib
+    labels = sorted({e.get(k) for e in ents if isinstance(e, dict) for k in ("N1", "N2") if isinstance(e.get(k), str) and e.get(k) != "0"})
+    if labels:
+        old, new = r.choice(labels), r.choice(["zz", "A1", "77"])
+        for e in ents:
+            if isinstance(e, dict):
+                for k in ("N1", "N2"):
+                    if e.get(k) == old:
+                        e[k] = new
+    for e in ents:
+        if isinstance(e, dict) and e.get("type") == "real_voltage_source" and r.random() < 0.5:
+            e["type"] = "real_current_source"
+            e["I"] = e.pop("V", 1)
+            e["Y"] = e.pop("Z", 0)
+            break
     return sib
 
 
@@ -369,6 +415,22 @@ def _script(r, client, world, counter):
                 add("ld.undictify_all", {"doc": P("ndoc0")})
             else:
                 add("ld.dictify_all", {"doc": P("doc0")})
+        elif g == "churn":
+            # load / transform, solve, query, drop - again and again: results die, their memory is reused
+            for _ in range(r.randint(2, 4)):
+                x = r.random()
+                if x < 0.4:
+                    h = add("ld.load_network", {"desc": P(r.choice(["desc0", "desc0s"]))})
+                elif x < 0.75:
+                    c2 = r.choice(world["cirs"])
+                    h = add("cir.transform", {"cir": P(c2), "f": "transform_circuit", "w": r.choice([0, 10.0, 100.0])})
+                else:
+                    n2 = r.choice(world["nets"])
+                    h = add("net.xform", {"net": P(n2), "f": r.choice(["passive_network", "remove_open_circuit_elements", "short_circuitify_voltage_sources"])})
+                hs = add("net.solve", {"net": h})
+                add("nsol.all", {"sol": hs})
+                add("h.drop", {"x": hs})
+                add("h.drop", {"x": h})
         elif g == "file":
             path = r.choice(["a.json", "b.yaml", "c.json"])
             k = r.choice(["dump_load", "load", "put_netload", "cdl"])
@@ -385,7 +447,7 @@ def _script(r, client, world, counter):
             else:
                 add("cdl.save", {"path": "cir.json", "cir": P(cir)})
                 add("cdl.load", {"path": "cir.json"})
-    return out[:budget + 3]
+    return out[:budget + 6]
 
 
 # --------------------------------------------------------------------------- schedule
